@@ -1221,11 +1221,10 @@ func ValueTupleExpr(query *Query, current Map, expr *sqlparser.ValTuple, opts ..
 		if err != nil {
 			return nil, err
 		}
-		if colName, ok := value.(ColumnName); ok {
-			value, err = ExecReader(current, string(colName))
-			if err != nil {
-				return nil, err
-			}
+		// column references, literals and arithmetic results are unwrapped to plain values
+		value, err = ValueOf(query, current, value)
+		if err != nil {
+			return nil, err
 		}
 		slice = append(slice, value)
 	}
